@@ -185,6 +185,18 @@ def run_case(ck, desc):
         t0, p0 = gas.pseudocritical_point_Sutton(sg, zero, dry)
         if t0 == Tpc and p0 == ppc:
             ck.violation("sutton.composition-ignored", {"Tpc": Tpc, "ppc": ppc}, desc)
+    # the point itself against the harness's transcription of Sutton + Kay mixing + Wichert-Aziz
+    from vf.refmodels import sutton as ref
+
+    for fluid_type in ("wet gas", "dry gas"):
+        for (a, b, c) in ((comp["N2"], comp["H2S"], comp["CO2"]), (comp["N2"] + 0.03, 0.0, 0.0), (0.0, comp["H2S"] + 0.01, 0.0), (0.0, 0.0, comp["CO2"] + 0.02)):
+            got = gas.pseudocritical_point_Sutton(sg, gas.make_nonhydrocarbon_properties(a, b, c), fluid_type)
+            want = ref.pseudocritical(sg, a, b, c, fluid_type)
+            _close(ck, "sutton.point=published-mixing-rule", [got[0] + 459.67, got[1]], [want[0] + 459.67, want[1]], desc, 1e-10, {"type": fluid_type, "N2,H2S,CO2": [a, b, c]})
+    ex = desc["extra"]
+    got = gas.pseudocritical_point_Sutton(sg, gas.make_nonhydrocarbon_properties(comp["N2"], comp["H2S"], comp["CO2"], ("Helium", 0.02, *ex)), dry)
+    want = ref.pseudocritical(sg, comp["N2"], comp["H2S"], comp["CO2"], dry, extras=[(0.02, *ex)])
+    _close(ck, "sutton.point=published-mixing-rule", [got[0] + 459.67, got[1]], [want[0] + 459.67, want[1]], desc, 1e-10, {"extra_component": ex})
     ck.count("sutton_cases")
     return True, {"Tpc": Tpc, "ppc": ppc}
 
